@@ -14,7 +14,8 @@ from hypothesis import strategies as st
 from . import page as P
 
 ITEM_START = ("- ", "o ", "x ", "~ ", "< ", "> ")
-WORDS = ["edited", "more", "text", "again", "#newtag", "@ctx9", "+prj9", "k9::v9", "[[linked]]", "2024-01-01", "P5", "x",
+# {today...} placeholders are filled in when the step is applied (words that contain today's date)
+WORDS = ["see [{today_short}#zz] there", "[[log/{today_long}]]", "on {today_short}", "edited", "more", "text", "again", "#newtag", "@ctx9", "+prj9", "k9::v9", "[[linked]]", "2024-01-01", "P5", "x",
          "[k8:: two words]", "(done)"]
 
 
@@ -160,8 +161,16 @@ class Workdir:
                 return None
             rel = cands[st_["n"] % len(cands)]
             (self.zdir / rel).parent.mkdir(parents=True, exist_ok=True)
-            (self.zdir / rel).write_bytes(self.graveyard.pop(rel))
-            return f"restore_page {rel}"
+            data, renamed_to = self.graveyard.pop(rel)
+            if renamed_to is not None:
+                # undo a rename: the page must not exist twice (its ZIDs would be duplicated)
+                if not (self.zdir / renamed_to).exists():
+                    return None
+                unchanged = (self.zdir / renamed_to).read_bytes() == data
+                os.rename(self.zdir / renamed_to, self.zdir / rel)
+                return f"restore_page {rel} (rename undone{', byte-identical' if unchanged else ''})"
+            (self.zdir / rel).write_bytes(data)
+            return f"restore_page {rel} (deleted page restored)"
         if op == "break_page":
             if not pages:
                 return None
@@ -192,14 +201,14 @@ class Workdir:
         if op == "del_page":
             if len(pages) <= 1:
                 return None
-            self.graveyard[rel] = (self.zdir / rel).read_bytes()
+            self.graveyard[rel] = ((self.zdir / rel).read_bytes(), None)
             (self.zdir / rel).unlink()
             return f"del_page {rel}"
         if op == "rename_page":
             self.fresh += 1
             new = ("sub/" if st_.get("sub") else "") + f"ren{self.fresh}.zo"
             (self.zdir / new).parent.mkdir(parents=True, exist_ok=True)
-            self.graveyard[rel] = (self.zdir / rel).read_bytes()
+            self.graveyard[rel] = ((self.zdir / rel).read_bytes(), new)
             os.rename(self.zdir / rel, self.zdir / new)
             return f"rename_page {rel} -> {new}"
         lines = self.read(rel)
@@ -235,7 +244,8 @@ class Workdir:
             return None
         s, e = its[st_["n"] % len(its)]
         if op == "append_word":
-            lines[s] = lines[s] + " " + st_["w"]
+            w = st_["w"].replace("{today_short}", day[2:4] + day[5:7] + day[8:10]).replace("{today_long}", day.replace("-", ""))
+            lines[s] = lines[s] + " " + w
             return f"append_word {rel}:{s + 1}" if self.write(rel, lines) else None
         if op == "add_bullet":
             lines[e:e] = ["  * " + st_["w"] + " bullet"]
